@@ -214,22 +214,22 @@ theorem copy_eq (R : Render) (d : EqCtx) (x : Inst) :
     an operation on one instance is validated against and applied to that instance only.  (Value
     semantics: that a deep / unpickled copy shares no mutable object with the original is what the
     `pairs` suite establishes on the real code.) -/
-theorem run2_frame (bd : Bool) (tbl : List MethodRec) (O : Oracles) (c : ClassOpts) (fields : List (String × FieldDecl)) :
+theorem run2_frame (bd dh : Bool) (tbl : List MethodRec) (O : Oracles) (c : ClassOpts) (fields : List (String × FieldDecl)) :
     ∀ (h : List (Side × Op)) (p : Inst × Inst),
-      (run2 bd tbl O c fields p h).1 =
-        ((runI bd tbl O c fields p.1 (sideOf .orig h)).1, (runI bd tbl O c fields p.2 (sideOf .copy h)).1)
-      ∧ sideOf .orig (run2 bd tbl O c fields p h).2 = (runI bd tbl O c fields p.1 (sideOf .orig h)).2
-      ∧ sideOf .copy (run2 bd tbl O c fields p h).2 = (runI bd tbl O c fields p.2 (sideOf .copy h)).2
+      (run2 bd dh tbl O c fields p h).1 =
+        ((runI bd dh tbl O c fields p.1 (sideOf .orig h)).1, (runI bd dh tbl O c fields p.2 (sideOf .copy h)).1)
+      ∧ sideOf .orig (run2 bd dh tbl O c fields p h).2 = (runI bd dh tbl O c fields p.1 (sideOf .orig h)).2
+      ∧ sideOf .copy (run2 bd dh tbl O c fields p h).2 = (runI bd dh tbl O c fields p.2 (sideOf .copy h)).2
   | [], p => by simp [run2, runI, sideOf]
   | (.orig, op) :: rest, p => by
-    have ih := run2_frame bd tbl O c fields rest ((stepI bd tbl O c fields p.1 op).1, p.2)
+    have ih := run2_frame bd dh tbl O c fields rest ((stepI bd dh tbl O c fields p.1 op).1, p.2)
     simp only [run2, sideOf, List.filter, List.map, runI] at ih ⊢
     simp only [show ((Side.orig == Side.orig) = true) from rfl, show ((Side.orig == Side.copy) = false) from rfl,
       List.map] at ih ⊢
     simp only [runI]
     exact ⟨ih.1, by rw [ih.2.1], ih.2.2⟩
   | (.copy, op) :: rest, p => by
-    have ih := run2_frame bd tbl O c fields rest (p.1, (stepI bd tbl O c fields p.2 op).1)
+    have ih := run2_frame bd dh tbl O c fields rest (p.1, (stepI bd dh tbl O c fields p.2 op).1)
     simp only [run2, sideOf, List.filter, List.map, runI] at ih ⊢
     simp only [show ((Side.copy == Side.copy) = true) from rfl, show ((Side.copy == Side.orig) = false) from rfl,
       List.map] at ih ⊢
@@ -250,28 +250,28 @@ theorem sideOf_map_copy (ops : List Op) :
 /-- **C11 (deepcopy independent)**: whatever history is applied to the copy, the original is
     unchanged, and the copy goes through exactly the states and outcomes of that history run on it
     alone -/
-theorem deepcopy_independent (bd : Bool) (tbl : List MethodRec) (O : Oracles) (c : ClassOpts)
+theorem deepcopy_independent (bd dh : Bool) (tbl : List MethodRec) (O : Oracles) (c : ClassOpts)
     (fields : List (String × FieldDecl)) (S : SetOrder) (x : Inst) (ops : List Op) :
-    let r := run2 bd tbl O c fields (x, deepcopyI c S x) (ops.map (fun op => (Side.copy, op)))
+    let r := run2 bd dh tbl O c fields (x, deepcopyI c S x) (ops.map (fun op => (Side.copy, op)))
     r.1.1 = x
-    ∧ r.1.2 = (runI bd tbl O c fields (deepcopyI c S x) ops).1
-    ∧ sideOf .copy r.2 = (runI bd tbl O c fields (deepcopyI c S x) ops).2 := by
+    ∧ r.1.2 = (runI bd dh tbl O c fields (deepcopyI c S x) ops).1
+    ∧ sideOf .copy r.2 = (runI bd dh tbl O c fields (deepcopyI c S x) ops).2 := by
   intro r
-  have h := run2_frame bd tbl O c fields (ops.map (fun op => (Side.copy, op))) (x, deepcopyI c S x)
+  have h := run2_frame bd dh tbl O c fields (ops.map (fun op => (Side.copy, op))) (x, deepcopyI c S x)
   rw [(sideOf_map_copy ops).1, (sideOf_map_copy ops).2] at h
   refine ⟨?_, ?_, h.2.2⟩
   · have := congrArg Prod.fst h.1; simpa [runI] using this
   · have := congrArg Prod.snd h.1; simpa using this
 
 /-- the same frame property for an unpickled copy, for every iteration order of its rebuilt sets -/
-theorem unpickled_frame (bd : Bool) (tbl : List MethodRec) (O : Oracles) (c : ClassOpts)
+theorem unpickled_frame (bd dh : Bool) (tbl : List MethodRec) (O : Oracles) (c : ClassOpts)
     (fields : List (String × FieldDecl)) (S : SetOrder) (x : Inst) (ops : List Op) :
-    let r := run2 bd tbl O c fields (x, pickleI S x) (ops.map (fun op => (Side.copy, op)))
+    let r := run2 bd dh tbl O c fields (x, pickleI S x) (ops.map (fun op => (Side.copy, op)))
     r.1.1 = x
-    ∧ r.1.2 = (runI bd tbl O c fields (pickleI S x) ops).1
-    ∧ sideOf .copy r.2 = (runI bd tbl O c fields (pickleI S x) ops).2 := by
+    ∧ r.1.2 = (runI bd dh tbl O c fields (pickleI S x) ops).1
+    ∧ sideOf .copy r.2 = (runI bd dh tbl O c fields (pickleI S x) ops).2 := by
   intro r
-  have h := run2_frame bd tbl O c fields (ops.map (fun op => (Side.copy, op))) (x, pickleI S x)
+  have h := run2_frame bd dh tbl O c fields (ops.map (fun op => (Side.copy, op))) (x, pickleI S x)
   rw [(sideOf_map_copy ops).1, (sideOf_map_copy ops).2] at h
   refine ⟨?_, ?_, h.2.2⟩
   · have := congrArg Prod.fst h.1; simpa [runI] using this
@@ -292,14 +292,14 @@ theorem pickle_state (S : SetOrder) (x : Inst) (hi : x.instantiated = true)
     states and outcomes that the same history produces on the instance it was pickled from —
     immutability and every validation included.  (`hfix`: the rebuilt sets iterate as before, e.g.
     `S = id`, see `rebuildAttrs_id`; for other orders `unpickled_frame` and `pickle_eq` apply.) -/
-theorem unpickled_independent (bd : Bool) (tbl : List MethodRec) (O : Oracles) (c : ClassOpts)
+theorem unpickled_independent (bd dh : Bool) (tbl : List MethodRec) (O : Oracles) (c : ClassOpts)
     (fields : List (String × FieldDecl)) (S : SetOrder) (x : Inst) (ops : List Op)
     (hi : x.instantiated = true) (hfix : rebuildAttrs S x.attrs = x.attrs) :
-    let r := run2 bd tbl O c fields (x, pickleI S x) (ops.map (fun op => (Side.copy, op)))
+    let r := run2 bd dh tbl O c fields (x, pickleI S x) (ops.map (fun op => (Side.copy, op)))
     r.1.1 = x
-    ∧ r.1.2 = (runI bd tbl O c fields x ops).1
-    ∧ sideOf .copy r.2 = (runI bd tbl O c fields x ops).2 := by
-  have h := unpickled_frame bd tbl O c fields S x ops
+    ∧ r.1.2 = (runI bd dh tbl O c fields x ops).1
+    ∧ sideOf .copy r.2 = (runI bd dh tbl O c fields x ops).2 := by
+  have h := unpickled_frame bd dh tbl O c fields S x ops
   rw [pickle_state S x hi hfix] at h ⊢
   exact h
 
@@ -313,18 +313,18 @@ def exImmInst : Inst := { cls := "I", attrs := [("x", .int 1)] }
 /-- an immutable instance stays immutable through a pickle round trip: for every class, every
     instance and every rebuilt-set order, assignment to the unpickled copy of an
     ImmutableStructure is refused and leaves it unchanged -/
-theorem unpickled_immutable_protected (bd : Bool) (tbl : List MethodRec) (O : Oracles) (c : ClassOpts)
+theorem unpickled_immutable_protected (bd dh : Bool) (tbl : List MethodRec) (O : Oracles) (c : ClassOpts)
     (fields : List (String × FieldDecl)) (S : SetOrder) (x : Inst) (f : String) (v : PyVal)
     (hc : c.immutable = true) :
-    stepI bd tbl O c fields (pickleI S x) (.setattr f v) = (pickleI S x, .err .valueErr) := by
+    stepI bd dh tbl O c fields (pickleI S x) (.setattr f v) = (pickleI S x, .err .valueErr) := by
   simp only [stepI, pickleI, hc, Bool.and_self, setattrStep, setattrUndef, if_true]
   split <;> rfl
 
 /-- non-vacuity / former finding `unpickled:immutable-setattr-unprotected`: assignment is refused
     on the instance and on its unpickled copy alike, and the copy `==` the original -/
 theorem unpickled_immutable_example :
-    (stepI Generated.nestedBound Generated.wrappers exO exImm exImmFields exImmInst (.setattr "x" (.int 2))).2 = .err .valueErr
-    ∧ (stepI Generated.nestedBound Generated.wrappers exO exImm exImmFields (pickleI id exImmInst) (.setattr "x" (.int 2))).2
+    (stepI Generated.nestedBound Generated.delitemHook Generated.wrappers exO exImm exImmFields exImmInst (.setattr "x" (.int 2))).2 = .err .valueErr
+    ∧ (stepI Generated.nestedBound Generated.delitemHook Generated.wrappers exO exImm exImmFields (pickleI id exImmInst) (.setattr "x" (.int 2))).2
         = .err .valueErr
     ∧ instEq {} exImmInst (pickleI id exImmInst) = true := by decide
 
@@ -504,20 +504,20 @@ theorem undef_unset_vs_none_example :
     instEq exU exUnset exNone = false ∧ instEq exU exNone exUnset = false
     ∧ PyVal.pyEq (getA exU exUnset "b") undefinedV = true ∧ PyVal.pyEq (getA exU exNone "b") .none = true
     ∧ (hashKey exR exUnset == hashKey exR exNone) = false
-    ∧ instEq exU (stepI Generated.nestedBound Generated.wrappers exO exUC exUFields exUnset (.setattr "b" .none)).1 exNone = true
-    ∧ instEq exU (stepI Generated.nestedBound Generated.wrappers exO exUC exUFields exNone (.setattr "b" (.int 2))).1
+    ∧ instEq exU (stepI Generated.nestedBound Generated.delitemHook Generated.wrappers exO exUC exUFields exUnset (.setattr "b" .none)).1 exNone = true
+    ∧ instEq exU (stepI Generated.nestedBound Generated.delitemHook Generated.wrappers exO exUC exUFields exNone (.setattr "b" (.int 2))).1
         { cls := "C", attrs := [("a", .int 1), ("b", .int 2)], undef := true } = true := by
   decide
 
 /-- on such a class `x.f = None` for a non-required (not immutable) field of a mutable instance
     is never stored: the name is recorded in `_none_fields` and whatever `__dict__` held for it is
     removed (since ed6dbae), so the field reads `None` afterwards -/
-theorem setattr_none_recorded (bd : Bool) (tbl : List MethodRec) (O : Oracles) (c : ClassOpts)
+theorem setattr_none_recorded (bd dh : Bool) (tbl : List MethodRec) (O : Oracles) (c : ClassOpts)
     (fields : List (String × FieldDecl)) (x : Inst) (f : String) (fd : FieldDecl)
     (hu : x.undef = true) (hm : c.immutable = false) (hf : lookup f fields = some fd)
     (hr : c.required.contains f = false)
     (hi : c.immFields.contains f = false ∨ lookup f x.attrs = none) :
-    stepI bd tbl O c fields x (.setattr f .none)
+    stepI bd dh tbl O c fields x (.setattr f .none)
       = ({ x with nones := addName f x.nones, attrs := assocDel f x.attrs }, .ok) := by
   have hg : (c.immFields.contains f && (lookup f x.attrs).isSome) = false := by
     rcases hi with h | h
@@ -529,12 +529,12 @@ theorem setattr_none_recorded (bd : Bool) (tbl : List MethodRec) (O : Oracles) (
 
 /-- … and on an immutable field that already holds a value it is refused and changes nothing
     (since f1caf24), like every other assignment to such a field -/
-theorem setattr_none_immutable_field_refused (bd : Bool) (tbl : List MethodRec) (O : Oracles) (c : ClassOpts)
+theorem setattr_none_immutable_field_refused (bd dh : Bool) (tbl : List MethodRec) (O : Oracles) (c : ClassOpts)
     (fields : List (String × FieldDecl)) (x : Inst) (f : String) (fd : FieldDecl) (w : PyVal)
     (hu : x.undef = true) (hf : lookup f fields = some fd)
     (hr : c.required.contains f = false) (hi : c.immFields.contains f = true)
     (hs : lookup f x.attrs = some w) :
-    stepI bd tbl O c fields x (.setattr f .none) = (x, .err .valueErr) := by
+    stepI bd dh tbl O c fields x (.setattr f .none) = (x, .err .valueErr) := by
   simp only [stepI, setattrUndef, hu, hf, hr, hi, hs, PyVal.isNone, if_true, Bool.false_and,
     Bool.false_eq_true, if_false, Option.isSome_some, Bool.not_true, Bool.not_false, Bool.and_self,
     Bool.true_and]
@@ -555,13 +555,13 @@ theorem pickle_keeps_nones_example :
     the result is `==` `C(a=1, b=None)`, reads `b` as `None`, and is told apart from `C(a=1, b=5)`
     by `==` and by the values read back alike -/
 theorem none_replaces_value_example :
-    (stepI Generated.nestedBound Generated.wrappers exO exUC exUFields
+    (stepI Generated.nestedBound Generated.delitemHook Generated.wrappers exO exUC exUFields
         { cls := "C", attrs := [("a", .int 1), ("b", .int 5)], undef := true } (.setattr "b" .none)).1.nones = ["b"]
-    ∧ instEq exU (stepI Generated.nestedBound Generated.wrappers exO exUC exUFields
+    ∧ instEq exU (stepI Generated.nestedBound Generated.delitemHook Generated.wrappers exO exUC exUFields
         { cls := "C", attrs := [("a", .int 1), ("b", .int 5)], undef := true } (.setattr "b" .none)).1 exNone = true
-    ∧ PyVal.pyEq (getA exU (stepI Generated.nestedBound Generated.wrappers exO exUC exUFields
+    ∧ PyVal.pyEq (getA exU (stepI Generated.nestedBound Generated.delitemHook Generated.wrappers exO exUC exUFields
         { cls := "C", attrs := [("a", .int 1), ("b", .int 5)], undef := true } (.setattr "b" .none)).1 "b") .none = true
-    ∧ instEq exU (stepI Generated.nestedBound Generated.wrappers exO exUC exUFields
+    ∧ instEq exU (stepI Generated.nestedBound Generated.delitemHook Generated.wrappers exO exUC exUFields
         { cls := "C", attrs := [("a", .int 1), ("b", .int 5)], undef := true } (.setattr "b" .none)).1
         { cls := "C", attrs := [("a", .int 1), ("b", .int 5)], undef := true } = false := by
   decide
@@ -571,15 +571,15 @@ theorem none_replaces_value_example :
     — `__dict__` and `_none_fields` — stays `==` what it was; on a not yet set immutable field the
     explicit `None` is recorded as on any other field -/
 theorem none_over_immutable_field_example :
-    (stepI Generated.nestedBound Generated.wrappers exO { exUC with immFields := ["b"] } exUFields
+    (stepI Generated.nestedBound Generated.delitemHook Generated.wrappers exO { exUC with immFields := ["b"] } exUFields
         { cls := "C", attrs := [("a", .int 1), ("b", .int 5)], undef := true } (.setattr "b" .none)).2
         = .err .valueErr
-    ∧ (stepI Generated.nestedBound Generated.wrappers exO { exUC with immFields := ["b"] } exUFields
+    ∧ (stepI Generated.nestedBound Generated.delitemHook Generated.wrappers exO { exUC with immFields := ["b"] } exUFields
         { cls := "C", attrs := [("a", .int 1), ("b", .int 5)], undef := true } (.setattr "b" .none)).1.nones = []
-    ∧ instEq exU (stepI Generated.nestedBound Generated.wrappers exO { exUC with immFields := ["b"] } exUFields
+    ∧ instEq exU (stepI Generated.nestedBound Generated.delitemHook Generated.wrappers exO { exUC with immFields := ["b"] } exUFields
         { cls := "C", attrs := [("a", .int 1), ("b", .int 5)], undef := true } (.setattr "b" .none)).1
         { cls := "C", attrs := [("a", .int 1), ("b", .int 5)], undef := true } = true
-    ∧ instEq exU (stepI Generated.nestedBound Generated.wrappers exO { exUC with immFields := ["b"] } exUFields exUnset
+    ∧ instEq exU (stepI Generated.nestedBound Generated.delitemHook Generated.wrappers exO { exUC with immFields := ["b"] } exUFields exUnset
         (.setattr "b" .none)).1 exNone = true := by
   decide
 
@@ -597,7 +597,7 @@ theorem eq_hash_counterexample_default_absent :
     ∧ (hashKey exR { cls := "C", attrs := [("a", .int 1)] }
         == hashKey exR { cls := "C", attrs := [("a", .int 1), ("b", .int 0)] }) = false
     ∧ sameSpellI { cls := "C", attrs := [("a", .int 1)] } { cls := "C", attrs := [("a", .int 1), ("b", .int 0)] } = false
-    ∧ (stepI Generated.nestedBound Generated.wrappers exO exUC exUFields { cls := "C", attrs := [("a", .int 1), ("b", .int 0)] }
+    ∧ (stepI Generated.nestedBound Generated.delitemHook Generated.wrappers exO exUC exUFields { cls := "C", attrs := [("a", .int 1), ("b", .int 0)] }
         (.delitem "b")).1.attrs = [("a", .int 1)] := by
   refine ⟨by decide, by decide, by decide, by decide, by rfl⟩
 
